@@ -156,7 +156,7 @@ def body_E1(ctx):
             logger.validate()  # validating twice must be harmless
         logger.reset()
     kind = ["message", "action-ok", "action-failed", "action-failed-extractor", "traceback", "nested"][ctx.choose(6, "what is logged")]
-    dev = ["none", "drop", "add", "wrong-type", "validator-rejected", "not-encodable", "non-str-key", "not-encodable-nested"][ctx.choose(8, "deviation")]
+    dev = ["none", "drop", "add", "wrong-type", "validator-rejected", "not-encodable", "non-str-key", "not-encodable-nested", "wrong-type-equal"][ctx.choose(9, "deviation")]
 
     class AppErr(Exception):
         pass
@@ -174,6 +174,10 @@ def body_E1(ctx):
             d["undeclared"] = 1
         elif dev == "wrong-type":
             d[droppable] = [1] if droppable != "s" else 5
+        elif dev == "wrong-type-equal":
+            # a value of the wrong type that compares (and hashes) equal to the conforming one this
+            # very field has accepted before: 1.0 / True for the int 1, the int 0 for the float 0.0
+            d[droppable] = {"i": 1.0, "n": False}.get(droppable, 5)
         elif dev == "validator-rejected":
             d["n"] = -1
         elif dev == "not-encodable":
@@ -249,7 +253,7 @@ def body_E1(ctx):
         raised = e
     if dev == "none":
         ctx.check(raised is None, "messages produced by correct use of the declared types (%s) failed validation: %r", kind, raised)
-    elif dev in ("drop", "wrong-type", "not-encodable") and kind != "message":
+    elif dev in ("drop", "wrong-type", "wrong-type-equal", "not-encodable") and kind != "message":
         # a failing start message is not delivered by Logger, but MemoryLogger records and reports it
         ctx.check(raised is not None, "deviation %s in %s was not reported (messages %r)", dev, kind, [m.get("action_status") or m.get("message_type") for m in logger.messages])
     else:
@@ -350,7 +354,7 @@ OBLIGATIONS = [
        bounds={"quick": "<= 3 declared fields each present/absent; one of them (every choice) carries an arbitrary value over int|str|float(non-NaN)|bool|None, the others a conforming constant; type field correct or any text of length <= 3; status correct/bogus; one undeclared key; the three reserved keys; 4 serializers (message, action start/success/failure)"}),
     Ob("E1", E1, body_E1, "X", desc="library-emitted typed messages validate; each single deviation is reported; unflushed tracebacks fail first", functions=["MemoryLogger.write", "MemoryLogger._validate_message", "MemoryLogger.validate", "MemoryLogger.flushTracebacks", "check_for_errors", "MessageType.log", "ActionType.__call__"],
        timeout={"quick": 100, "thorough": 300}, twin=[{"twin_label": "deviation-nested"}],
-       bounds={"quick": "3 logger histories (fresh / validated and reset / validated twice and reset) x 6 logging scenarios x 8 deviation kinds (incl. a non-encodable value nested inside a list/dict, non-UTF-8 bytes) (inapplicable ones skipped)"}),
+       bounds={"quick": "3 logger histories (fresh / validated and reset / validated twice and reset) x 6 logging scenarios x 9 deviation kinds (incl. a wrong-typed value equal to one the same field accepted earlier: 1.0 for 1) (incl. a non-encodable value nested inside a list/dict, non-UTF-8 bytes) (inapplicable ones skipped)"}),
     Ob("E2", E2, body_E2, "X", desc="capture_logging / validate_logging on real unittest.TestCase methods: default logger restored for 7 outcomes", functions=["capture_logging", "validate_logging", "swap_logger", "check_for_errors"],
        timeout={"quick": 100, "thorough": 300}, bounds={"quick": "7 test outcomes (pass, fail, error, skip, error in the assertion callback, invalid logging, unflushed traceback) x 2 decorators x {test leaves the default logger alone, test installs another one and does not restore it}"}),
 ]
